@@ -91,3 +91,8 @@ Definition expected_fetch (s : seqset) (uids : list Z) : list (Z * Z) :=
 Definition deleted_flag : str := S_ "\Deleted".
 Definition has_deleted (flags : str) : bool :=
   existsb (fun f => equal_fold f deleted_flag) (fields flags).
+
+(** the only white space of a stored flag string is the single blank (APPEND,
+    STORE and COPY write strings.Join(strings.Fields(..), " ")) *)
+Definition blank_ws (s : str) : bool :=
+  forallb (fun c => negb (is_space c) || Ascii.eqb c " "%char) s.
